@@ -155,6 +155,9 @@ package parser
 //@              rule.RecordingRule.Expr.Value != nil && len(rule.RecordingRule.Expr.Value.Pos) >= 1
 //@   ensures !isEmpty && rule.Error.Err == nil && rule.AlertingRule != nil ==> len(rule.AlertingRule.Alert.Pos) >= 1 &&
 //@              rule.AlertingRule.Expr.Value != nil && len(rule.AlertingRule.Expr.Value.Pos) >= 1
+// C01 (rule level, from rulefmt.Rule.Validate): a recording rule the loader would refuse for its name is an error rule
+//@   ensures [C01] !isEmpty && rule.Error.Err == nil && rule.RecordingRule != nil ==> pureCall("github.com/prometheus/common/model.IsValidMetricName", rule.RecordingRule.Record.Value)
+//@   ensures [C01] !isEmpty && rule.Error.Err == nil && rule.RecordingRule != nil ==> !pureCall("strings.Contains", rule.RecordingRule.Record.Value, "{") && !pureCall("strings.Contains", rule.RecordingRule.Record.Value, "}")
 // C06: every field node is built from the field's own YAML node, with the file's offsets and the column after the key
 //@   at call newYamlNode assert [C06] arg0 == part && arg1 == offsetLine && arg2 == offsetColumn && arg3 == contentLines && arg4 == key.Column + 2
 //@   at call newPromQLExpr assert [C06] arg0 == part && arg1 == offsetLine && arg2 == offsetColumn && arg3 == contentLines && arg4 == key.Column + 2
